@@ -37,8 +37,20 @@ Theorem C06_chain_keeps_factory : forall xw, guarded_wiring xw -> forall ch st v
   Forall (fun s => admissible st (a_err (snd s))) ch ->
   forallb no_shortcut ch = true ->
   derive xw st v ch = Some (st', r) ->
-  wf st' /\ exists k, gv st' r = Some k /\ origin st' k = origin st i /\ length st <= length st'.
+  wf st' /\ exists k, gv st' r = Some k /\ origin st' k = origin st i /\ length st <= length st'
+                       /\ (ch = [] \/ length st <= k).
 Proof. exact derive_origin. Qed.
+
+(* ---- the property's first sentence in one statement: for any pool, any factory F of it, any
+        chain of any length with any admissible arguments ---- *)
+Theorem C06_derived_errors_identify_their_factory : forall xw st F ch st' e,
+  guarded_wiring xw -> Forall root_cell st -> F < length st ->
+  Forall (fun s => admissible st (a_err (snd s))) ch -> forallb no_shortcut ch = true ->
+  derive xw st (val_of st F) ch = Some (st', e) ->
+  errors_is st' e (val_of st' F) = Ok true
+  /\ (forall G, G < length st -> G <> F -> errors_is st' e (val_of st' G) = Ok false)
+  /\ (ch <> [] -> extract_fref st' e = VG F).
+Proof. exact headline. Qed.
 
 (* ---- errors.Is between any two gerror values decides "same originating factory" ---- *)
 Theorem C06_is_origin : forall st va vb i j,
@@ -195,3 +207,4 @@ Print Assumptions C06_convert_fwd_refuted.
 Print Assumptions C06_no_panic.
 Print Assumptions C06_no_panic_orig_refuted.
 Print Assumptions C06_bare_extension_observation.
+Print Assumptions C06_derived_errors_identify_their_factory.
